@@ -7,10 +7,13 @@ import (
 	"flag"
 	"fmt"
 	"os"
+	"os/exec"
+	"path/filepath"
 	"runtime"
 	"runtime/debug"
 	"sort"
 	"strconv"
+	"strings"
 	"time"
 
 	"mrocheck/an"
@@ -105,6 +108,12 @@ func main() {
 				}
 			}
 		}
+		if *tier == "thorough" && os.Getenv("MROCHECK_VARIANT") == "" {
+			// the same obligations over the other file set that type-checks offline: GOOS=darwin selects
+			// the *_unix / *_generic siblings of the *_linux files (signal handling, atomic writes,
+			// mrjob's sync, memory and load probes).  GOOS=windows does not type-check in this repository.
+			extra["variants"] = runVariant(*prop, *repo, *verif, "darwin", c)
+		}
 		if *replay != "" {
 			b, err := os.ReadFile(*replay)
 			if err != nil {
@@ -144,4 +153,48 @@ func flagSet(name string) bool {
 		}
 	})
 	return set
+}
+
+// runVariant re-runs the property's quick obligations in a child process with another GOOS and
+// folds violations into the parent's obligations.
+func runVariant(prop, repo, verif, goos string, c *an.Ctx) []map[string]interface{} {
+	self, _ := os.Executable()
+	tmp, err := os.MkdirTemp("", "mrocheck-variant-")
+	if err != nil {
+		c.Undecided("variant", "GOOS="+goos, 0, "cannot create scratch directory: "+err.Error())
+		return nil
+	}
+	defer os.RemoveAll(tmp)
+	if b, err := os.ReadFile(filepath.Join(verif, "known_findings.json")); err == nil {
+		os.WriteFile(filepath.Join(tmp, "known_findings.json"), b, 0o644)
+	}
+	cmd := exec.Command(self, "-property", prop, "-tier", "quick", "-repo", repo, "-verif", tmp)
+	cmd.Env = append(os.Environ(), "GOOS="+goos, "CGO_ENABLED=0", "MROCHECK_VARIANT="+goos)
+	out, _ := cmd.CombinedOutput()
+	res := map[string]interface{}{"goos": goos}
+	var summary string
+	nViol := 0
+	for _, line := range strings.Split(string(out), "\n") {
+		if strings.HasPrefix(line, "property=") {
+			summary = line
+		}
+		if strings.HasPrefix(line, "VIOLATION ") && !strings.HasPrefix(line, "VIOLATION property=") {
+			nViol++
+			c.Undecided("variant", "GOOS="+goos+":"+strings.SplitN(strings.TrimPrefix(line, "VIOLATION "), " at ", 2)[0], 0, "under GOOS="+goos+": "+line)
+		}
+		if strings.HasPrefix(line, "UNDECIDED ") {
+			nViol++
+			c.Undecided("variant", "GOOS="+goos+":"+strings.SplitN(strings.TrimPrefix(line, "UNDECIDED "), " at ", 2)[0], 0, "under GOOS="+goos+": "+line)
+		}
+		if strings.HasPrefix(line, "load failure") || strings.HasPrefix(line, "analysis panic") {
+			nViol++
+			c.Undecided("variant", "GOOS="+goos+":load", 0, line)
+		}
+	}
+	res["summary"] = summary
+	res["violations"] = nViol
+	if summary == "" && nViol == 0 {
+		c.Undecided("variant", "GOOS="+goos+":run", 0, "the variant run produced no summary line")
+	}
+	return []map[string]interface{}{res}
 }
